@@ -5,7 +5,7 @@ rows = []
 for m in sorted(glob.glob("/verif/seeded/*/meta.json")):
     d = json.load(open(m))
     name = d["name"]
-    what = (d.get("summary") or "").strip()
+    what = (d.get("summary") or "").strip() + " — needs: " + (d.get("needs_to_manifest") or "") + ((" — " + d["history"]) if d.get("history") else "")
     first = []
     for q, r in d.get("checks_with_change", {}).items():
         kinds = []
